@@ -25,7 +25,7 @@ _c14 = C14()
 class C15(Machine):
     ID = "C15"
     LEVEL = "fault_enumeration"
-    FAMILY_WEIGHTS = {"sparse": 3, "dense": 1, "canal": 3, "modular": 4, "maa": 2, "cascade": 3, "maa_cascade": 4, "degenerate": 1, "inputs_mix": 2}
+    FAMILY_WEIGHTS = {"sparse": 3, "dense": 1, "canal": 3, "modular": 4, "maa": 2, "cascade": 3, "maa_cascade": 4, "degenerate": 1, "inputs_mix": 2, "osc_latches": 3}
     NMAX = {"quick": 6, "thorough": 7}
     RULE = "one evaluation = one sampled (network, prefix, operation) whose fault space is enumerated: every size limit 1..final size+1, every level/stack limit 0..depth+1, a solver failure at every clingo fault point (all while <=64, seeded sample of 64 beyond; 'light' evaluations sample 6), configured limits at and below the actual counts; distinct = distinct event-log digest; non-trivial = at least 3 interrupted attempts of which at least one really stopped early or raised"
 
